@@ -6,7 +6,6 @@ PROPS = {}
 NOT_APPLICABLE = {
     'C14': 'check not built yet in this round (planned, see DESIGN.md section 5)',
     'C15': 'check not built yet in this round (planned, see DESIGN.md section 5)',
-    'C19': 'check not built yet in this round (planned, see DESIGN.md section 5)',
 }
 
 PROPS['C17'] = dict(
@@ -324,4 +323,22 @@ PROPS['C18'] = dict(
     min_nontrivial=100000,
     require_counters={'mutation/u32': 38000, 'mutation/varint': 25000, 'mutation/tamper-site1': 1000, 'mutation/multi-site': 10000},
     assumptions=['harness allocation cap: 256 MiB per request, 1 GiB live (larger requests are recorded with their size, then refused)'],
+)
+
+PROPS['C19'] = dict(
+    title='Independent encoder/decoder instances can run concurrently',
+    technique='ThreadSanitizer over a multi-threaded stress workload with injected pre-emption points + cross-talk oracle (result under concurrency vs result alone)',
+    level='exploration',
+    level_text=('Each case builds a pool of 12-64 jobs (encode mesh / point cloud with either front end, decode, decode with skip-transform, keyframe animation encode+decode, OBJ and PLY encode to buffer; own objects and '
+                'geometry copies per execution), computes every job\'s result alone, then runs 2/4/8/16 threads from a barrier, each executing jobs in its own random order with sched_yield / microsecond sleeps injected '
+                'from the thread_local DRACO_VERIF hooks (at every varint, bit, symbol and path event). Every result must equal the single-threaded one; in the tsan variant every ThreadSanitizer report block written '
+                'during the case is a violation (keyed by kind + first Draco frame of both stacks). Evidence lists the job-kind pairs that actually overlapped in time.'),
+    level_note='Covers the schedules the stress runs produced, not all interleavings. File I/O factories are not exercised (only ...ToBuffer / ...FromBuffer APIs), as the property states. TSan only understands synchronisation it intercepts; the harness uses std::thread, std::mutex and atomics only.',
+    rule='one case = one job pool x thread count x repetition; non-trivial = at least one pair of job executions overlapped in time; distinct = case PRNG state.',
+    runs=[dict(variant='tsan', harness='c19_concurrent', cases=dict(quick=320, thorough=12000)),
+          dict(variant='plain', harness='c19_concurrent', tag='volume', cases=dict(quick=4000, thorough=150000))],
+    min_nontrivial=2000,
+    require_counters={'threads/16': 200, 'threads/2': 200, 'overlap/encode-mesh+decode': 500, 'overlap/encode-mesh+encode-mesh': 500, 'overlap/decode+decode': 300, 'overlap/keyframes+encode-pc': 0,
+                      'overlap/obj-encode+ply-encode': 300, 'overlapping_execution_pairs': 500000, 'tsan_report_blocks': 0, 'job_executions': 200000},
+    assumptions=[],
 )
